@@ -215,9 +215,9 @@ def tail_actions(draw, env, with_appendc=False):
 
 
 @st.composite
-def eof_program(draw, with_appendc=False):
+def eof_program(draw, with_appendc=False, tame_conditions=False):
     cfg = gen.GenConfig(max_depth=1, max_stmts=3, n_hooks=(1, 2), n_fcodes=(1, 2), n_strs=(0, 1), n_ints=(0, 1), wide_bytes=0.0,
-                        kinds={"finish": 0, "hook": 3, "appendc": 1 if with_appendc else 0, "wait": 0}, allow_greedy=False)
+                        kinds={"finish": 0, "hook": 3, "appendc": 1 if with_appendc else 0, "wait": 0}, allow_greedy=False, tame_conditions=tame_conditions)
     prog = draw(gen.program(cfg))
     env = gen.Env(prog, cfg)
     prefix = prog.body
